@@ -226,6 +226,11 @@ def _assemble(design, crossings, scoped, rcc, mode, alignment, status, factors):
             steps = T // c['sustain'] - c['pre_eff']
             if mode != 'repeat':
                 w = max(1, -(-steps // c['size'])) if c['size'] else 1
+                own = T // c['sustain'] - c['pre']
+                if alignment == 'post preamble' and c['size'] and max(1, -(-own // c['size'])) != w:
+                    # "the smallest multiple N such that S * N >= T": with a unified preamble the documentation does
+                    # not say whether T counts the trials before the crossing starts
+                    raise Outside('POST_PREAMBLE with WEIGHT replication that depends on how the preamble is counted')
                 if w != c['cw']:
                     if mode == 'equal':
                         raise Refused('RepeatMode.EQUAL with different crossing sizes')
